@@ -174,6 +174,13 @@ func checkC05(c *harness.Check) {
 		add(c05job{fmt.Sprintf("r3k2r/8/8/8/8/8/8/R3K2R w KQkq - %d 60", clock), c.Pick(2, 3), nil, -1, false, "clock + castling"})
 	}
 	add(c05job{"k7/p7/P7/8/8/7p/7P/7K w - - 100 70", 3, nil, -1, false, "clock already at limit"})
+	// a fortress with one free pawn each: the DFS explores (and takes back) an irreversible move
+	// before completing repetitions that started earlier on the same line
+	freePawn := func(g *ref.Game, m ref.Move) bool {
+		return confined(g, m) || (m.Piece == ref.P && m.Captured == 0 && (m.From%8 == 4))
+	}
+	add(c05job{"k7/p3p3/P7/8/8/7p/4P2P/7K w - - 0 1", c.Pick(11, 13), freePawn, -1, false, "fortress + free pawns (take-back of irreversible moves inside repetitions)"})
+	add(c05job{"k7/p3p3/P7/8/8/7p/4P2P/7K w - - 0 1", c.Pick(10, 11), freePawn, 5, false, "fortress + free pawns, forked at 5"})
 	add(c05job{corpus.Initial, c.Pick(8, 10), officersOnly(ref.N), -1, false, "start position knight shuffle"})
 	add(c05job{corpus.Initial, c.Pick(8, 9), func(g *ref.Game, m ref.Move) bool {
 		return m.Piece == ref.N && (m.From == 6 || m.To == 6 || m.From == 62 || m.To == 62)
